@@ -4,6 +4,17 @@ import json, os, subprocess
 V = os.path.dirname(os.path.abspath(__file__))
 
 CHECKS = {
+ 'C05': dict(cat='model_checking', tech='bounded exhaustive enumeration (function x edition x operand lengths x aliasing x pattern cross product) of the real word/ww/zz/zm/gfp/pp/gf2 code against exact Python integer and GF(2)[x] formulas; complete 2^16 sweeps of the 16-bit helpers',
+             text='100 catalogue entries (every public function of ww.h, zz.h, pp.h with both SAFE/FAST editions called directly) x operand lengths 0..9 (thorough 0..20; ppMul also 10..13 in quick) x documented aliasings x the cross product of the declared operand patterns '
+                  '(zero, all-ones, single word / single bit at every position, B^n-1, B^n/2+-1, alternating, fillers; for modular functions 0,1,mod-1,(mod+-1)/2 and every k*mod, k*mod+-1 that fits; ~20 moduli per length: B^n-c, B^(n-1)+1, primes, even/odd, top bit set/clear): '
+                  'value and returned carry/borrow/flag equal the formula, every modular result < mod; 3 400 (6 900) rings from all seven creators with the whole qr_o table over an element alphabet squared; all 65 536 inputs of every u16 helper and structured u32/u64/word sets; '
+                  'scratch stacks exactly xxx_deep octets with a guard zone; 64- and 32-bit words.',
+             note='trusted: ref/arith_catalogue.py (+arith_cat_*), Python int / ref/polys.py; cross product complete up to a stated tuple limit per cell, pairwise-full above', ref='4/C05'),
+ 'C06': dict(cat='model_checking', tech='complete enumeration of all ordered point pairs of complete small curves and closed subgroups, and of every scalar 0..2*ord+2 in every word layout, on the real ec/ecp/ec2 code against an affine group-law reference',
+             text='GF(p): complete curves over p in {11, 13, 251 (, 1021)} of every group class (prime/odd order, one or three points of order 2, A = -3, A = 0, B = 0): every ordered pair (P, Q) incl. O through add/sub/adda/suba and neg/dbl/tpl/toa/froma/dbla with projective inputs scaled by 4 factors, 4 representations of O, aliasings c=a, c=b, a=b; '
+                  'ecpIsOnA on all raw (x, y) in [0, p+1]^2; every scalar k in 0..2*ord+2 in four word layouts and lengths selecting every NAF window width; ecHasOrderA, ecAddMulA with 1-3 terms; closed subgroups of order 72/210 over ten multi-word primes (Plain, Montgomery, Crandall rings, 2..8 words); '
+                  'ec2: complete subfield curves E(GF(2^d)), d in {5, 7, 11}, inside GF(2^70..110); SWU on every admissible field element of 30 (48) curves; boundary points x scalars on 22 standard curves; exact xxx_deep stacks with guard zones; 64- and 32-bit words.',
+             note='trusted: ref/ecp.py, ref/ec2.py (vector-gated); gf2Create refuses fields below one word, hence subfield curves for the binary case', ref='4/C06'),
  'C08': dict(cat='model_checking', tech='exhaustive enumeration of all octet / character strings up to a length bound through every decoder on exact-size buffers (ASan redzones and guard pages), structure-aware mutation classes of valid encodings, against a spec-level grammar model; encoder boundary alphabets decoded back',
              text='All octet strings of length 0..2 (thorough 0..3) plus 3-/4-octet families with long-tag and long-length introducers through a 16-decoder DER battery (TL, TLV, validity, SIZE, UINT, BIT, OCT, OID, PSTR, SEQ anchors), all strings of length 0..3 (0..4) over a 76-character alphabet through hex/base64/decimal, '
                   'all APDU strings of length 0..7 over 5 octets and every Lc/Le form product, every tag word / length / SIZE / OID / APDU boundary value through the encoders and back; 140 mutation classes over 38 valid encodings (bign parameters, CV certificates, bpki containers, SM-protected APDUs: truncation at every prefix, every tag and length form, INTEGER and OID malformations, inconsistent nesting): '
